@@ -34,19 +34,21 @@ TABLE = {
             'DESIGN.md §4 C04'),
     'C05': ('ast relevance (origin-set slices) + who-may-call/ordering on match_link and DoLinks.run_molecule',
             'Static: every condition-bearing field of a link controls the yield of match_link; apply uses remove-then-add-or-replace; '
-            'atoms/parameters are taken through the match table.',
-            'Does not decide the order relation table nor matcher induced-ness; trusted: ast parser, intra-module summaries (depth 3).',
+            'atoms/parameters are taken through the match table; atoms a link deletes or re-attributes are addressed as match[link atom]; exact decision tables for the order relation, '
+            'interaction_match and attributes_match (own interpreter).',
+            'Does not decide the behaviour of the graph matcher itself; trusted: ast parser, intra-module summaries (depth 3).',
             'DESIGN.md §4 C05'),
     'C07': ('ast who-may-open-for-writing sweep over the package + dominance/ordering rules on DeferredFileWriter and the CLI gate',
             'Static: only the deferred writer opens destinations for writing (enumerated exceptions); open() never touches the destination '
             'for write modes; backup-before-move under the lock; close() removes only temporaries; the CLI finalises at one site, '
-            'dominated by the zero-leftover test, and exits non-zero otherwise.',
+            'dominated by the zero-leftover test, and exits non-zero otherwise; the temporary file is pre-filled for r+ only; finalisation receives the mode it was opened with.',
             'Does not decide crash-atomicity of shutil.move across file systems; trusted: ast parser, name resolution incl. local rebinding of open.',
             'DESIGN.md §4 C07'),
     'C08': ('ast bounds abstract interpretation (sign / <= per-type count) of the allowance deductions',
             'Static: every deduction from the total lies in [0, count of that type] (bounds abstract interpretation) and equals min(count, allowance) on all '
             'valuations of a small grid (own interpreter over the min/max/+/- fragment: exhausts the orderings); deductions happen only inside the loop over types that '
-            'occurred in the WARNING-level table; errors are never deducted; the -maxwarn parser hands types on unmodified.',
+            'occurred in the WARNING-level table; errors are never deducted; the -maxwarn parser hands types on unmodified; the whole allowance function, interpreted by the checker over '
+            '~10^4 (records, specification) cases incl. zero / negative / repeated limits, leaves exactly what the statement says.',
             'Exactness is decided on a finite grid for the min/max expression class only; counts are assumed non-negative; trusted: abstract transfer rules and vstat/interp.py.',
             'DESIGN.md §4 C08'),
     'C09': ('ast sibling agreement of the positions/weights comprehensions + provenance of weight keys',
@@ -62,8 +64,9 @@ TABLE = {
             'DESIGN.md §4 C10'),
     'C11': ('ast unordered-iteration lint (hash-ordered collections of non-integers reaching order-sensitive sinks) with a frozen triage table',
             'Narrow static claim (hash-seed clause only): no iteration over a set of strings/objects or a directory listing reaches an '
-            'order-sensitive sink unsorted in the pipeline modules; every site is triaged.',
-            'Order-, name- and frame-independence are not decided; trusted: kind inference table and triage in vstat/rules/c11.py.',
+            'order-sensitive sink unsorted in the pipeline modules; every site is triaged.  Plus one record-order clause: the PDB reader keeps / labels a record on grounds of that record '
+            'alone (no parser memory), the element of a record without element column is the first letter of its name.',
+            'Order-, name- and frame-independence of the pipeline as a whole are not decided; trusted: kind inference table and triage in vstat/rules/c11.py.',
             'DESIGN.md §4 C11'),
     'C12': ('ast cache-coherence, pairing, one-shot-iterator and alias rules on Molecule (with networkx Graph source parsed for inherited mutators)',
             'Static: merge offset recomputed from the node set; every inherited node-removing mutator is overridden and purges interactions, '
@@ -79,7 +82,7 @@ TABLE = {
             'DESIGN.md §4 C13'),
     'C14': ('ast pairing (removal <-> unknown-input warning) and residue-key agreement rules on fix_ptm',
             'Narrow static claim: removal of unexplained atoms is paired with an unknown-input warning; labelling is unconditional over the '
-            'touched residues; residue partitions use the canonical key.',
+            'touched residues; residue partitions use the canonical key; the unrecognised marking runs for every residue (shared with C04); no report memory kept on the processor.',
             'The cover search (exactly one, induced, preference) is not decided.',
             'DESIGN.md §4 C14'),
     'C15': ('no-raise path rule + mask-form decision table (truth-table equivalence over matrix operations) on apply_rubber_band',
@@ -90,7 +93,8 @@ TABLE = {
     'C16': ('format-layout calculus: writer format strings vs reader column tables (ast + string.Formatter)',
             'Static: ATOM/TER/CONECT/GRO writer fields agree with the reader column tables field by field (name, order, span); every '
             'fixed-width field truncates; atom serials have one width everywhere; records emitted are dispatched by the reader; '
-            'serial bookkeeping (one increment per atom, table keyed (molecule, node)).',
+            'serial bookkeeping (one increment per atom, table keyed (molecule, node)); atom order = sorted_nodes by atom id alone; reader processors filter nothing by default and pass '
+            'their settings on; a PDB record is kept / given an element on grounds of that record alone.',
             'Does not decide numeric precision of the round trip; trusted: ast parser, format mini-language grammar in vstat/fmt.py.',
             'DESIGN.md §4 C16'),
     'C17': ('ast sibling rule on zip operands (same filtered source) + dominance of the length test + literal table agreement',
@@ -102,7 +106,7 @@ TABLE = {
     'C18': ('ast provenance of the virtual-site record + truth-table equivalence of the contact guard (decision table)',
             'Static: virtual-site fields come from the backbone particle iterated, keys start after the maximum, one site + construction per '
             'backbone node; the path condition of pair emission is equivalent to the stated conjunction; sigma factor folds to 2**(1/6); contact-map reader, built-in generator and '
-            'consumer agree on the contact tuple layout and on the OV / rCSU acceptance criterion.',
+            'consumer agree on the contact tuple layout and on the OV / rCSU acceptance criterion; keywords routed by constructor introspection are all declared (KW-wiring).',
             'Does not decide residue lookup correctness or float equality of the two directions; trusted: ast parser, atom naming in vstat/rules/c18.py.',
             'DESIGN.md §4 C18'),
     'C19': ('ast flag-aggregation rule + dominance + decision table of the terminal rule',
@@ -114,7 +118,7 @@ TABLE = {
 
 SHARED = (' Shared semantic lints over the files the property is anchored in: TRUTHY-zero (no truthiness test / `or` default on values for which 0 is legitimate), '
           'STATE-no-memory (no new module-, class- or instance-level memory outside the triaged inventory), ARG-binding (no transposed / crossed arguments at resolved calls), '
-          'EDGE-orientation (no one-sided test on the ends of an undirected edge).')
+          'EDGE-orientation (no one-sided test on the ends of an undirected edge); where a processor class is anchored: MPT-every-molecule (run_system visits every molecule).')
 
 NA = {
     'C06': 'Correctness of a symmetry-reduced backtracking isomorphism search over all graph pairs: every clause is about the set of '
